@@ -82,6 +82,12 @@ def check_filelist(rep, prog, fm, cfg):
     ev = fm.events
     dls = dir_loops(fm)
     n = 0
+    # the extension the modes filter with is the option's value itself (file names are compared case-sensitively)
+    A0 = fm.arg("extension")
+    ext_given = pelx.specialise(ext_cfg, A0) if ext_cfg is not None else None
+    rep.check(ext_given == A0, rule, "Config.extension is the --extension value as given", PT + "main", "config.extension = args.extension",
+              "the extension the modes filter with is %r, not the option's value as given: files whose extension differs only in "
+              "case / form are selected or skipped unexpectedly" % (ext_given,))
     for fn, dest in MODES.items():
         q = PT + fn
         # the per-file loops of the mode: directory loops (by provenance) in which a file is opened / decoded
@@ -234,6 +240,17 @@ def check_pipelines(rep, prog, fm, cfg):
                                      isinstance(x, Op) and x.op == "getitem" for x in walk(extra[0]))
     rep.check(ok, rule, "list mode: one entry per selected file, stored under its entry id", q, "final_summary[eid] = summary",
               "list mode does not add exactly one entry per decoded+selected file")
+    if ok:
+        # ... and what is printed is that dictionary as filled - in file order, like the other two modes - not a re-ordered copy
+        tgt = st[0].data[0]
+        want_entries = pelx.dict_entries(fm.I, tgt)
+        finals = [e for e in fm.events if is_stdout_print(e) and q in e.stack and not e.loops and e.seq > st[0].seq and e.data[0]]
+        dumped = [x for P in finals for x in walk(fm.norm(P.data[0][0])) if isinstance(x, Op) and x.op == "json.dumps" and x.args]
+        okp = any(x.args[0] == tgt or (want_entries is not None and pelx.dict_entries(fm.I, x.args[0]) == want_entries) for x in dumped)
+        rep.check(okp, "C08.R1.same-candidates", "list mode prints the summaries in the order the files were visited", q,
+                  "print(prettyPrint(json.dumps(final_summary, ...)))", "the listing that is printed is not the dictionary as it was filled file by "
+                  "file (it is re-ordered or rebuilt: %s): --list no longer shows the PELs in the file-name order the other modes use" % (
+                      [repr(x.args[0])[:80] for x in dumped],))
     # all: the document print guard
     q = PT + "extractAllPELsData"
     docs = [e for e in fm.events if is_stdout_print(e) and q in e.stack and e.loops and e.data[0] and
@@ -351,3 +368,11 @@ def run(rep, prog, thorough):
     check_decode_independent_of_display(rep, prog, "C08.R2.same-filter")
     from .c01 import check_full_decode_accepts
     check_full_decode_accepts(rep, prog, "C08.R5.full-decode-accepts")
+    # the modes decode the PELs of a directory in different orders (-r) and to different depths: what is shown for one PEL
+    # must not depend on what was decoded before it (rule shared with C19)
+    from .c05 import decoder_runs
+    from .c19 import check_decode_state
+    from ..effects import check_no_memoised
+    runs = decoder_runs(prog)
+    check_decode_state(rep, prog, runs)
+    check_no_memoised(rep, prog, "C19.R3.shared-state-writes", None, "a decode returns what an earlier decode computed for equal arguments")
